@@ -155,6 +155,29 @@ func cmdQStress(c Cmd) (interface{}, error) {
 	outs := make([]outT, len(plans))
 	var wg sync.WaitGroup
 	t0 := time.Now()
+	// churn: goroutines that keep taking the table's write lock the way RestartQuery does (forced start, then
+	// delete), so that lock-protocol mistakes of concurrent cancels / timeouts get a writer to collide with
+	churnStop := make(chan struct{})
+	var churnWG sync.WaitGroup
+	churnBase := nextQid + 1000000
+	for w := 0; w < int(c.i64("churn_workers", 0)); w++ {
+		churnWG.Add(1)
+		go func(w int) {
+			defer churnWG.Done()
+			q := churnBase + uint64(w)*1000000
+			for {
+				select {
+				case <-churnStop:
+					return
+				default:
+				}
+				q++
+				if _, err := query.StartQuery(q, false, nil, true); err == nil {
+					query.DeleteQuery(q)
+				}
+			}
+		}(w)
+	}
 	for i := range plans {
 		wg.Add(1)
 		go func(i int) {
@@ -209,13 +232,33 @@ func cmdQStress(c Cmd) (interface{}, error) {
 		}(i)
 	}
 	wg.Wait()
+	close(churnStop)
+	churnDone := make(chan struct{})
+	go func() { churnWG.Wait(); close(churnDone) }()
+	churnStuck := false
+	select {
+	case <-churnDone:
+	case <-time.After(10 * time.Second):
+		churnStuck = true
+	}
 	// quiescence: tables empty, goroutines back to the baseline
 	var running, waiting, g int
 	settle := time.Duration(c.i64("settle_ms", 4000)) * time.Millisecond
 	deadline := time.Now().Add(settle)
+	tablesStuck := false
 	for {
-		running, waiting, g = query.GetActiveQueryCount(), len(query.GetWaitingQueries()), runtime.NumGoroutine()
-		if (running == 0 && waiting == 0 && g <= baseG) || time.Now().After(deadline) {
+		// reading the tables takes their locks: if a lock is never released again this must not hang the harness
+		type tv struct{ r, w int }
+		tch := make(chan tv, 1)
+		go func() { tch <- tv{query.GetActiveQueryCount(), len(query.GetWaitingQueries())} }()
+		select {
+		case v := <-tch:
+			running, waiting = v.r, v.w
+		case <-time.After(8 * time.Second):
+			tablesStuck = true
+		}
+		g = runtime.NumGoroutine()
+		if tablesStuck || (running == 0 && waiting == 0 && g <= baseG) || time.Now().After(deadline) {
 			break
 		}
 		time.Sleep(20 * time.Millisecond)
@@ -226,7 +269,7 @@ func cmdQStress(c Cmd) (interface{}, error) {
 	hk.delays = nil
 	hk.mu.Unlock()
 	res := map[string]interface{}{"outs": outs, "events": ev, "running_left": running, "waiting_left": waiting,
-		"goroutines_base": baseG, "goroutines_left": g, "base_qid": base}
+		"goroutines_base": baseG, "goroutines_left": g, "base_qid": base, "churn_stuck": churnStuck, "tables_stuck": tablesStuck}
 	if g > baseG || running != 0 || waiting != 0 {
 		var extra []string
 		for sig, n := range goroutineSigs() {
@@ -243,9 +286,9 @@ func cmdQStress(c Cmd) (interface{}, error) {
 	return res, nil
 }
 
-// qsched: force one TLC-generated schedule (spec/Gen_QueryLifecycle.tla) on the real goroutines of one
-// query.  steps: enq | deq | run | runskip | cancel | recv:<STATE> | xfin.  Returns which steps could be
-// forced, the query outcome and the event log.
+// qsched: force one TLC-generated schedule (spec/Gen_QueryLifecycle.tla) on the real goroutines of one or more
+// queries.  steps: enq[:q] | deq | run | runskip | cancel[:q] | recv[:q]:<STATE> | xfin[:q]   (q = q1, q2, ...; default q1).
+// Returns which steps could be forced, the outcome of every query and the event log.
 func init() { reg("qsched", cmdQSched) }
 
 func cmdQSched(c Cmd) (interface{}, error) {
@@ -255,65 +298,96 @@ func cmdQSched(c Cmd) (interface{}, error) {
 			steps = append(steps, fmt.Sprint(s))
 		}
 	}
-	query.MAX_RUNNING_QUERIES = 1
-	nextQid++
-	qid := nextQid
-	qs := fmt.Sprint(qid)
+	query.MAX_RUNNING_QUERIES = uint64(c.i64("max_running", 1))
+	// which queries occur
+	qname := func(st string) (string, string) { // -> (base step incl. state, query name)
+		parts := strings.Split(st, ":")
+		if len(parts) >= 2 && strings.HasPrefix(parts[1], "q") && len(parts[1]) <= 3 {
+			return strings.Join(append([]string{parts[0]}, parts[2:]...), ":"), parts[1]
+		}
+		return st, "q1"
+	}
+	qids := map[string]uint64{}
+	var names []string
+	for _, st := range steps {
+		_, qn := qname(st)
+		if _, ok := qids[qn]; !ok && (strings.HasPrefix(st, "enq") || strings.HasPrefix(st, "cancel") || strings.HasPrefix(st, "recv") || strings.HasPrefix(st, "xfin")) {
+			nextQid++
+			qids[qn] = nextQid
+			names = append(names, qn)
+		}
+	}
 	hk.mu.Lock()
 	hk.logging = true
 	hk.events = nil
 	hk.mu.Unlock()
-	// the puller is parked first so that nothing moves until the schedule says so
-	gateInstall("qid", []string{"q.pull.check|*", "q.pull.got|" + qs, "h.recv|" + qs, "x.start|" + qs})
+	keys := []string{"q.pull.check|*", "q.pull.got|*"}
+	for _, qn := range names {
+		keys = append(keys, "h.recv|"+fmt.Sprint(qids[qn]), "x.start|"+fmt.Sprint(qids[qn]))
+	}
+	gateInstall("qid", keys)
 	const W = 3 * time.Second
 	pullTicket := gateArrive("q.pull.check|*", W) // puller parked before canRunQuery
 	if pullTicket == nil {
 		gateReleaseAll()
 		return nil, fmt.Errorf("puller never reached q.pull.check")
 	}
-	var gotTicket, hTicket, xTicket *ticket
+	var gotTicket *ticket
+	hTicket := map[string]*ticket{}
 	type outT struct {
 		Outcome string
 		Hits    int
 	}
-	done := make(chan outT, 1)
+	done := map[string]chan outT{}
 	text := c.str("text")
 	if text == "" {
 		text = "*"
 	}
 	forced := 0
+	skipped := 0
 	infeasible := ""
-	cancelSeq, xdoneAtCancel, hretAtCancel := 0, false, false
-	for _, st := range steps {
+	cancelInfo := map[string]map[string]bool{}
+	for _, full := range steps {
+		st, qn := qname(full)
+		qid := qids[qn]
+		qs := fmt.Sprint(qid)
 		ok := true
 		switch {
 		case st == "enq":
 			after := curSeq()
-			go func() {
+			ch := make(chan outT, 1)
+			done[qn] = ch
+			go func(qid uint64) {
 				m := map[string]interface{}{"searchText": text, "indexName": "*", "startEpoch": uint64(1),
 					"endEpoch": uint64(time.Now().UnixMilli()) + 86400000, "queryLanguage": "Splunk QL"}
 				resp, _, _, err := pipesearch.ParseAndExecutePipeRequest(m, qid, 0, time.Now(), "-1", nil)
 				switch {
 				case err != nil && strings.Contains(err.Error(), "timed out"):
-					done <- outT{"timeout", 0}
+					ch <- outT{"timeout", 0}
 				case err != nil:
-					done <- outT{"err:" + err.Error(), 0}
+					ch <- outT{"err:" + err.Error(), 0}
 				case resp == nil:
-					done <- outT{"cancelled", 0}
+					ch <- outT{"cancelled", 0}
 				default:
-					done <- outT{"ok", len(resp.Hits.Hits)}
+					ch <- outT{"ok", len(resp.Hits.Hits)}
 				}
-			}()
+			}(qid)
 			_, ok = waitEvent("q.enqueue", "qid", qid, after, W)
+			if !ok {
+				// a changed admission path may have run it directly: accept the run event as the start
+				_, ok = waitEvent("q.run", "qid", qid, after, 200*time.Millisecond)
+			}
 		case st == "deq":
 			// let the puller pass canRunQuery + getNextWaitStateData; it parks again at q.pull.got
+			if pullTicket == nil {
+				pullTicket = gateArrive("q.pull.check|*", W)
+			}
 			pullTicket.letGo()
 			pullTicket = nil
-			gotTicket = gateArrive("q.pull.got|"+qs, W)
+			gotTicket = gateArrive("q.pull.got|*", W)
 			ok = gotTicket != nil
 			if !ok {
-				// the queue was empty: the puller is back at the top of its loop
-				pullTicket = gateArrive("q.pull.check|*", W)
+				pullTicket = gateArrive("q.pull.check|*", W) // queue empty / no slot: the puller is back at the top
 			}
 		case st == "run" || st == "runskip":
 			after := curSeq()
@@ -321,19 +395,19 @@ func cmdQSched(c Cmd) (interface{}, error) {
 				ok = false
 				break
 			}
+			gq := gotTicket.kv["qid"]
 			gotTicket.letGo()
 			gotTicket = nil
 			if st == "run" {
-				_, ok = waitEvent("q.run.sent", "qid", qid, after, W)
+				_, ok = waitEvent("q.run.sent", "qid", gq, after, W)
 			} else {
-				_, ok = waitEvent("q.run.skip", "qid", qid, after, W)
+				_, ok = waitEvent("q.run.skip", "qid", gq, after, W)
 			}
 		case st == "cancel":
 			_, xd := waitEvent("x.done", "qid", qid, 0, 0)
 			_, hr := waitEvent("h.done", "qid", qid, 0, 0)
-			xdoneAtCancel, hretAtCancel = xd, hr
+			cancelInfo[qn] = map[string]bool{"xdone": xd, "hret": hr}
 			hookFn("t.cancel.call", "qid", qid)
-			cancelSeq = curSeq()
 			cd := make(chan struct{})
 			go func() { query.CancelQuery(qid); close(cd) }()
 			select {
@@ -345,50 +419,93 @@ func cmdQSched(c Cmd) (interface{}, error) {
 			hookFn("t.cancel.ret", "qid", qid)
 		case strings.HasPrefix(st, "recv:"):
 			want := strings.TrimPrefix(st, "recv:")
-			if hTicket != nil {
-				hTicket.letGo() // finish processing of the previous message
-				hTicket = nil
+			if hTicket[qn] != nil {
+				hTicket[qn].letGo() // finish processing of the previous message
+				hTicket[qn] = nil
 			}
-			hTicket = gateArrive("h.recv|"+qs, W)
-			if hTicket == nil {
+			terminalWanted := want == "COMPLETE" || want == "ERROR" || want == "CANCELLED" || want == "TIMEOUT"
+			for {
+				hTicket[qn] = gateArrive("h.recv|"+qs, W)
+				if hTicket[qn] == nil {
+					break
+				}
+				g := fmt.Sprint(hTicket[qn].kv["state"])
+				if terminalWanted && (g == "READY" || g == "RUNNING") && g != want {
+					hTicket[qn].letGo() // schedules that list only terminal receives: pass the progress messages
+					hTicket[qn] = nil
+					continue
+				}
+				break
+			}
+			if hTicket[qn] == nil {
 				ok = false
 				break
 			}
-			got := fmt.Sprint(hTicket.kv["state"])
+			got := fmt.Sprint(hTicket[qn].kv["state"])
 			if got != want && !((want == "COMPLETE" || want == "ERROR") && (got == "COMPLETE" || got == "ERROR")) {
 				ok = false
-				infeasible = "handler received " + got + ", schedule wants " + want
+				infeasible = "handler of " + qn + " received " + got + ", schedule wants " + want
+			} else if len(names) > 1 && terminalWanted {
+				// several queries: the handler's return (deferred DeleteQuery) is part of this step, later steps of the
+				// puller depend on the freed slot
+				after := curSeq()
+				hTicket[qn].letGo()
+				hTicket[qn] = nil
+				_, ok = waitEvent("h.done", "qid", qid, after-1, W)
 			}
 		case st == "xfin":
 			after := curSeq()
-			if hTicket != nil { // the executor is started by the handler when it processes READY
-				hTicket.letGo()
-				hTicket = nil
+			if hTicket[qn] != nil { // the executor is started by the handler when it processes READY
+				hTicket[qn].letGo()
+				hTicket[qn] = nil
 			}
-			xTicket = gateArrive("x.start|"+qs, W)
-			if xTicket == nil {
+			xt := gateArrive("x.start|"+qs, 300*time.Millisecond)
+			for tries := 0; xt == nil && tries < 3; tries++ {
+				// the handler may still be parked on READY / RUNNING (schedule without explicit receives): let it go on
+				if ht := gateArrive("h.recv|"+qs, 300*time.Millisecond); ht != nil {
+					st := fmt.Sprint(ht.kv["state"])
+					if st == "READY" || st == "RUNNING" {
+						ht.letGo()
+					} else {
+						hTicket[qn] = ht
+					}
+				}
+				xt = gateArrive("x.start|"+qs, W/2)
+			}
+			if xt == nil {
 				ok = false
 				break
 			}
-			xTicket.letGo()
+			xt.letGo()
 			_, ok = waitEvent("x.done", "qid", qid, after, 10*time.Second)
 		}
 		if !ok {
+			if len(names) > 1 && (st == "deq" || st == "run") && infeasible == "" {
+				// with several queries a puller step that cannot be taken (nothing to dequeue / no free slot, e.g. because the
+				// code admitted the query by another path) is skipped and the rest of the schedule is still attempted
+				skipped++
+				continue
+			}
 			if infeasible == "" {
-				infeasible = "step " + st + " could not be forced"
+				infeasible = "step " + full + " could not be forced"
 			}
 			break
 		}
 		forced++
 	}
 	gateReleaseAll()
-	var out outT
-	select {
-	case out = <-done:
-	case <-time.After(15 * time.Second):
-		out = outT{"stuck", 0}
-		if forced == 0 || steps[0] != "enq" {
-			out = outT{"notstarted", 0}
+	outcomes := map[string]string{}
+	for _, qn := range names {
+		ch := done[qn]
+		if ch == nil {
+			outcomes[qn] = "notstarted"
+			continue
+		}
+		select {
+		case o := <-ch:
+			outcomes[qn] = o.Outcome
+		case <-time.After(15 * time.Second):
+			outcomes[qn] = "stuck"
 		}
 	}
 	time.Sleep(30 * time.Millisecond)
@@ -396,7 +513,12 @@ func cmdQSched(c Cmd) (interface{}, error) {
 	ev := hk.events
 	hk.events = nil
 	hk.mu.Unlock()
-	return map[string]interface{}{"qid": qid, "forced": forced, "of": len(steps), "infeasible": infeasible, "outcome": out.Outcome,
-		"events": ev, "cancel_seq": cancelSeq, "xdone_at_cancel": xdoneAtCancel, "hret_at_cancel": hretAtCancel,
+	first := ""
+	if len(names) > 0 {
+		first = names[0]
+	}
+	ci := cancelInfo[first]
+	return map[string]interface{}{"qids": qids, "forced": forced, "skipped": skipped, "of": len(steps), "infeasible": infeasible, "outcomes": outcomes,
+		"outcome": outcomes[first], "events": ev, "xdone_at_cancel": ci["xdone"], "hret_at_cancel": ci["hret"], "cancel_info": cancelInfo,
 		"running_left": query.GetActiveQueryCount(), "waiting_left": len(query.GetWaitingQueries())}, nil
 }
